@@ -91,11 +91,28 @@ func (r *validationResponseHandler) HandleValidationResponse(
 		ccRespOnce bool
 	)
 	if (err != nil || isStaleErrorAllowed(resp.StatusCode)) && req.Method == http.MethodGet {
-		ccResp = ParseCCResponseDirectives(resp.Header)
-		ccRespOnce = true
-		if r.siep.CanStaleOnError(ctx.Freshness, ccResp) {
+		if resp != nil { // a failed origin call has no response
+			ccResp = ParseCCResponseDirectives(resp.Header)
+			ccRespOnce = true
+		}
+		// RFC 5861 §4: the stale-if-error directive of the stored response or
+		// of the request applies (not one on the error reply); it does not
+		// override must-revalidate or no-cache (RFC 9111 §4.2.4).
+		ccStored := ParseCCResponseDirectives(ctx.Stored.Data.Header)
+		storedNoCacheFields, storedNoCache := ccStored.NoCache()
+		noCacheFieldsSeq, noCacheQualified := storedNoCacheFields.Value()
+		blocked := ccStored.MustRevalidate() ||
+			(storedNoCache && !noCacheQualified) ||
+			ctx.CCReq.NoCache()
+		if !blocked && r.siep.CanStaleOnError(ctx.Freshness, ccStored, ctx.CCReq) {
 			// RFC 9111 §4.2.4 Serving Stale Responses
 			// RFC 9111 §4.3.3 Handling Validation Responses (5xx errors)
+			if noCacheQualified {
+				// Fields named by a qualified no-cache are not replayed without validation.
+				for field := range noCacheFieldsSeq {
+					ctx.Stored.Data.Header.Del(field)
+				}
+			}
 			SetAgeHeader(ctx.Stored.Data, r.clock, ctx.Freshness.Age)
 			CacheStatusStale.ApplyTo(ctx.Stored.Data.Header)
 			r.l.LogCacheStaleIfError(req, ctx.URLKey, ctx.ToMisc(ccResp))
